@@ -111,6 +111,15 @@ type rgWorld struct {
 	w      *sut.World
 	def    string
 	jsonMd bool
+	locs   []string // every Location any response of the current flow carried
+}
+
+func (g *rgWorld) do(rq sut.Req) sut.Resp {
+	r := g.w.In.Do(rq)
+	if r.Location != "" {
+		g.locs = append(g.locs, r.Location)
+	}
+	return r
 }
 
 func newRG(flow string, jsonMode bool) *rgWorld {
@@ -127,6 +136,7 @@ func newRG(flow string, jsonMode bool) *rgWorld {
 // try sends `redir` through one flow and returns the Location of the final (successful) response.
 func (g *rgWorld) try(flow, redir string) (loc, def string, ok bool) {
 	w := g.w
+	g.locs = nil
 	w.In.Sess.Clear("b1")
 	q := "?redir=" + url.QueryEscape(redir)
 	form := func(m map[string]string) map[string]string {
@@ -143,7 +153,7 @@ func (g *rgWorld) try(flow, redir string) (loc, def string, ok bool) {
 	}
 	switch flow {
 	case "password":
-		r := w.In.Do(sut.Req{Browser: "b1", Method: "POST", Path: path("/auth/login"), Form: form(map[string]string{"email": sut.PidPool["u1"], "password": sut.PwPool[0]})})
+		r := g.do(sut.Req{Browser: "b1", Method: "POST", Path: path("/auth/login"), Form: form(map[string]string{"email": sut.PidPool["u1"], "password": sut.PwPool[0]})})
 		return r.Location, "/ok/login", w.In.Sess.Get("b1")["uid"] != ""
 	case "otp":
 		// mint a fresh one-time password directly in storage
@@ -151,11 +161,11 @@ func (g *rgWorld) try(flow, redir string) (loc, def string, ok bool) {
 		otp := fmt.Sprintf("otp-%d", rand.Int63())
 		u.OTPs = sut.Hash512(otp)
 		w.In.Store.Poke(u)
-		r := w.In.Do(sut.Req{Browser: "b1", Method: "POST", Path: path("/auth/otp/login"), Form: form(map[string]string{"email": sut.PidPool["u1"], "password": otp})})
+		r := g.do(sut.Req{Browser: "b1", Method: "POST", Path: path("/auth/otp/login"), Form: form(map[string]string{"email": sut.PidPool["u1"], "password": otp})})
 		return r.Location, "/ok/login", w.In.Sess.Get("b1")["uid"] != ""
 	case "totp":
-		w.In.Do(sut.Req{Browser: "b1", Method: "POST", Path: "/auth/login", Form: map[string]string{"email": sut.PidPool["u2"], "password": sut.PwPool[1]}})
-		r := w.In.Do(sut.Req{Browser: "b1", Method: "POST", Path: path("/auth/2fa/totp/validate"), Form: form(map[string]string{"code": w.TotpNow(1)})})
+		g.do(sut.Req{Browser: "b1", Method: "POST", Path: "/auth/login", Form: map[string]string{"email": sut.PidPool["u2"], "password": sut.PwPool[1]}})
+		r := g.do(sut.Req{Browser: "b1", Method: "POST", Path: path("/auth/2fa/totp/validate"), Form: form(map[string]string{"code": w.TotpNow(1)})})
 		return r.Location, "/ok/login", w.In.Sess.Get("b1")["uid"] != ""
 	case "totp-q", "sms-q":
 		// the return target is given to the FIRST step (login form action carries it); the browser
@@ -164,7 +174,7 @@ func (g *rgWorld) try(flow, redir string) (loc, def string, ok bool) {
 		if flow == "sms-q" {
 			pid, pw = sut.PidPool["u3"], sut.PwPool[2]
 		}
-		r0 := w.In.Do(sut.Req{Browser: "b1", Method: "POST", Path: "/auth/login" + q, Form: map[string]string{"email": pid, "password": pw}})
+		r0 := g.do(sut.Req{Browser: "b1", Method: "POST", Path: "/auth/login" + q, Form: map[string]string{"email": pid, "password": pw}})
 		next := r0.Location
 		if !strings.HasPrefix(next, "/auth/2fa/") {
 			return "", "", false
@@ -178,19 +188,29 @@ func (g *rgWorld) try(flow, redir string) (loc, def string, ok bool) {
 		} else {
 			code = w.TotpNow(1)
 		}
-		r := w.In.Do(sut.Req{Browser: "b1", Method: "POST", Path: next, Form: map[string]string{"code": code}})
+		r := g.do(sut.Req{Browser: "b1", Method: "POST", Path: next, Form: map[string]string{"code": code}})
 		return r.Location, "/ok/login", w.In.Sess.Get("b1")["uid"] != ""
 	case "sms":
-		r0 := w.In.Do(sut.Req{Browser: "b1", Method: "POST", Path: "/auth/login", Form: map[string]string{"email": sut.PidPool["u3"], "password": sut.PwPool[2]}})
+		r0 := g.do(sut.Req{Browser: "b1", Method: "POST", Path: "/auth/login", Form: map[string]string{"email": sut.PidPool["u3"], "password": sut.PwPool[2]}})
 		if len(r0.SMSs) == 0 {
 			return "", "", false
 		}
-		r := w.In.Do(sut.Req{Browser: "b1", Method: "POST", Path: path("/auth/2fa/sms/validate"), Form: form(map[string]string{"code": r0.SMSs[0].Code})})
+		r := g.do(sut.Req{Browser: "b1", Method: "POST", Path: path("/auth/2fa/sms/validate"), Form: form(map[string]string{"code": r0.SMSs[0].Code})})
 		return r.Location, "/ok/login", w.In.Sess.Get("b1")["uid"] != ""
-	case "oauth2":
-		w.In.Do(sut.Req{Browser: "b1", Method: "GET", Path: "/auth/oauth2/pa" + q})
+	case "oauth2-error":
+		// the provider reports an error: the flow ends on the configured failure page, whatever was asked for
+		g.do(sut.Req{Browser: "b1", Method: "GET", Path: "/auth/oauth2/pa" + q})
 		st := w.In.Sess.Get("b1")["oauth2_state"]
-		r := w.In.Do(sut.Req{Browser: "b1", Method: "GET", Path: "/auth/oauth2/callback/pa?state=" + url.QueryEscape(st) + "&code=" + url.QueryEscape("uid:x1")})
+		r := g.do(sut.Req{Browser: "b1", Method: "GET", Path: "/auth/oauth2/callback/pa?state=" + url.QueryEscape(st) + "&error=access_denied"})
+		return r.Location, "/no/oauth2", r.Location != ""
+	case "password-wrong":
+		// a failed login never redirects anywhere
+		r := g.do(sut.Req{Browser: "b1", Method: "POST", Path: path("/auth/login"), Form: form(map[string]string{"email": sut.PidPool["u1"], "password": "wrong"})})
+		return r.Location, "", true
+	case "oauth2":
+		g.do(sut.Req{Browser: "b1", Method: "GET", Path: "/auth/oauth2/pa" + q})
+		st := w.In.Sess.Get("b1")["oauth2_state"]
+		r := g.do(sut.Req{Browser: "b1", Method: "GET", Path: "/auth/oauth2/callback/pa?state=" + url.QueryEscape(st) + "&code=" + url.QueryEscape("uid:x1")})
 		return r.Location, "/ok/oauth2", w.In.Sess.Get("b1")["uid"] != ""
 	}
 	return "", "", false
@@ -202,7 +222,7 @@ func redirCmd(args []string) {
 	out := fs.String("out", "", "result file")
 	k := fs.Int("k", 2, "concretisations per string")
 	seed := fs.Int64("seed", 1, "seed")
-	flowsF := fs.String("flows", "password,password-json,otp,totp,sms,totp-q,sms-q,oauth2,oauth2-json", "flows")
+	flowsF := fs.String("flows", "password,password-json,otp,totp,sms,totp-q,sms-q,oauth2,oauth2-json,oauth2-error,oauth2-error-json,password-wrong", "flows")
 	frac := fs.Float64("frac", 1.0, "fraction of strings for the non-password flows")
 	workers := fs.Int("workers", 16, "workers")
 	fs.Parse(args)
@@ -262,7 +282,23 @@ func redirCmd(args []string) {
 							ld++
 							continue
 						}
+						// whatever the outcome, no response of the flow may send the browser off-site
+						// (the provider's own authorisation URL is where the oauth2 start goes by design)
+						for _, l := range worlds[fl].locs {
+							if strings.HasPrefix(l, "http://pa.test/auth") {
+								continue
+							}
+							if cls := browserResolve(l); cls != "samesite" {
+								lm = append(lm, rgMismatch{r.S, conc, fl, "offsite-any", "samesite", cls, l})
+							}
+						}
 						followed := loc != def
+						neverFollows := strings.HasPrefix(fl, "oauth2-error") || fl == "password-wrong"
+						if neverFollows {
+							// (these outcomes end on a fixed page today; were they to honour a safe target
+							// the property would still hold, so only the off-site test above applies)
+							continue
+						}
 						if followed != r.Follows {
 							lm = append(lm, rgMismatch{r.S, conc, fl, "decision", fmt.Sprint(r.Follows), fmt.Sprint(followed), loc})
 						}
